@@ -238,7 +238,7 @@ def gen_singular(rng, names, root=None):
     return {"t": "root", "q": segs, "fake": False} if root else {"t": "self", "q": segs}
 
 
-REGEXES = ["a", "a.*", "[ab]+", "a|b", "(ab)*c", "a?b", ".", "b.", "[a-c]x*", "[^a]", "x\\.y", ".*b.*", "ab"]
+REGEXES = ["a", "a.*", "[ab]+", "a|b", "(ab)*c", "a?b", ".", "b.", "[a-c]x*", "[^a]", "x\\.y", ".*b.*", "ab", "[^.]+", "[0-9.]+", "[.,]", "a[.]b", "[a.c]*", "[^.x]*y?", "(a|[.])+"]
 STRINGS = ["", "a", "b", "ab", "abc", "x.y", "c", "é", "A"]
 
 
